@@ -24,7 +24,7 @@ from ..algebra import run_trace_leg
 from . import c04
 
 LEVEL = 'model_checking'
-AUTO_PLACEMENTS = ['auto', 'auto_closure', 'auto_attr', 'auto_attr2', 'auto_method', 'auto_param', 'auto_wraps', 'auto_deco_noop']
+AUTO_PLACEMENTS = ['auto', 'auto_closure', 'auto_attr', 'auto_attr2', 'auto_method', 'auto_param', 'auto_wraps', 'auto_deco_noop', 'auto_param_default']
 MINE = ('C05', 'C07')        # clause prefixes this check reports; C06_* clauses of the shared events belong to check C06
 
 
@@ -68,10 +68,26 @@ def interesting(prog):
     return any(s['k'] == 'fwd' for s in prog)
 
 
+def _s(k, ctx, sa='-', sk='-', tgt='-', how='-', arg='-'):
+    return {'k': k, 'ctx': ctx, 'sa': sa, 'sk': sk, 'tgt': tgt, 'how': how, 'arg': arg}
+
+
+# the listed known findings, always exercised (whatever the sampling of the tier)
+KNOWN_PROGRAMS = [
+    # D25 hidden-call-merged-with-precise-call: w1(**kwargs); 't' in kwargs; w2(**kwargs)
+    [_s('fwd', 'top', 'none', 'own'), _s('taint', 'top', tgt='K', how='contains'), _s('fwd', 'top', 'none', 'own')],
+]
+
+
 def prog_gen(stmts, maxlen, sample, seed, frac=1.0, only=None):
     def gen(shard, nshards):
         rnd = random.Random(seed)
         k = 0
+        if shard == 0 and only is None:
+            for j, prog in enumerate(KNOWN_PROGRAMS):
+                ws = [autofwd.callee_shapes(nm)[0] for nm in autofwd.CALLEE_NAMES]
+                choice = [{'w': 1, 'n': 0, 'names': []}, {'tkey': 't'}, {'w': 2, 'n': 0, 'names': []}]
+                yield autofwd.program_event('af/known-%d' % j, prog, autofwd.OUTERS[1], ws, choice)
         for prog in programs(stmts, maxlen, sample, seed):
             if not interesting(prog):
                 continue
@@ -83,7 +99,7 @@ def prog_gen(stmts, maxlen, sample, seed, frac=1.0, only=None):
             if r >= frac:
                 continue
             if k % nshards == shard and (only is None or k in only):
-                taintfree = all(s['k'] != 'taint' for s in prog)
+                taintfree = all(s['k'] != 'taint' and s.get('arg', '-') == '-' for s in prog)
                 full = all(s['sa'] == 'own' and s['sk'] == 'own' for s in prog if s['k'] == 'fwd')
                 # required callee parameters only where the caller can always supply them: no taints, every call forwards both stars
                 sh = shape if (taintfree and full) else shape % 2
@@ -130,7 +146,7 @@ def run_shared(check, tier, seed, scratch, mine):
     check.cov['model_unsound_behaviours_len<=2'] = nun
     classify = make_classify(mine)
     # statement-level programs
-    res = run_trace_leg(check, scratch, 'programs', prog_gen(stmts, 3 if quick else 4, 8000 if quick else 120000, seed, frac=0.5 if quick else 1.0),
+    res = run_trace_leg(check, scratch, 'programs', prog_gen(stmts, 3 if quick else 4, 8000 if quick else 120000, seed, frac=0.15 if quick else 1.0),
                         None, module='Trace_AutoFwd', describe=describe, classify=classify)
     # one-call grid over the signature universe and the resolution routes
     U2 = tlc.export_universe(scratch, 'ab', ['args'], ['kwargs'], 2)
@@ -153,9 +169,9 @@ def run_shared(check, tier, seed, scratch, mine):
     check.cov['statement_alphabet'] = len(stmts)
     check.cov['rule'] = ('statement-level: all programs of <= 2 statements over the %d-statement alphabet exported by TLC (%s), each with a seeded choice of '
                          'outer (3), callee shapes (3), same/distinct callees, n, written names; %s; one-call grid: %d seeded (outer in the %d star-bearing '
-                         'signatures, callee in the 220-signature universe, written call, 8 resolution routes), executed on the complete call set; '
+                         'signatures, callee in the 220-signature universe, written call, 9 resolution routes), executed on the complete call set; '
                          'distinct by (program, signatures, choices)' % (
-                             len(stmts), 'every other one in the quick tier' if quick else 'all', 'half of 8000 seeded programs of 3 statements' if quick else '120000 seeded programs each of 3 and 4 statements',
+                             len(stmts), 'a seeded 15% in the quick tier' if quick else 'all', '15% of 8000 seeded programs of 3 statements' if quick else '120000 seeded programs each of 3 and 4 statements',
                              ngrid, len(UO)))
     check.assumptions += [
         'taint statements use benign values (a rebinding supplies () / {}, mutations touch an optional keyword-only callee parameter): with an adversarial '
